@@ -7,6 +7,9 @@
 #include "support/NotCopyable.h"
 #include "util/NestCount.h"
 #include "util/OutputPrinter.h"
+#ifdef MUSCLE_VERIF_HOOKS
+# include "system/VerifHooks.h"
+#endif
 
 #ifndef MUSCLE_SINGLE_THREAD_ONLY
 # if defined(QT_CORE_LIB)  // is Qt4 available?
@@ -275,6 +278,10 @@ private:
       if (_isEnabled == false) return B_NO_ERROR;
 #endif
 
+#if defined(MUSCLE_VERIF_HOOKS) && !defined(MUSCLE_SINGLE_THREAD_ONLY)
+      (void) MUSCLE_VERIF_HOOK(MUSCLE_VH_MUTEX_LOCK, this, 0);
+#endif
+
 #ifdef MUSCLE_SINGLE_THREAD_ONLY
       return B_NO_ERROR;
 #elif !defined(MUSCLE_AVOID_CPLUSPLUS11)
@@ -309,6 +316,10 @@ private:
       if (_isEnabled == false) return B_NO_ERROR;
 #endif
 
+#if defined(MUSCLE_VERIF_HOOKS) && !defined(MUSCLE_SINGLE_THREAD_ONLY)
+      (void) MUSCLE_VERIF_HOOK(MUSCLE_VH_MUTEX_TRYLOCK, this, 0);
+#endif
+
 #ifdef MUSCLE_SINGLE_THREAD_ONLY
       return B_NO_ERROR;
 #elif !defined(MUSCLE_AVOID_CPLUSPLUS11)
@@ -333,6 +344,10 @@ private:
 
 #ifndef MUSCLE_SINGLE_THREAD_ONLY
       if (_isEnabled == false) return B_NO_ERROR;
+#endif
+
+#if defined(MUSCLE_VERIF_HOOKS) && !defined(MUSCLE_SINGLE_THREAD_ONLY)
+      (void) MUSCLE_VERIF_HOOK(MUSCLE_VH_MUTEX_UNLOCK, this, 0);
 #endif
 
 #ifdef MUSCLE_SINGLE_THREAD_ONLY
